@@ -1,28 +1,11 @@
 import DAVerif.Drv.SqlDrv
 import DAVerif.Sql.WithFormG
-/-! Driver suite of C04 for the REPAIRED `to_with_form_stub` (fixes/c04-cte-elim-lookup-before-recursion.diff):
-`c04_semopt_fix` = `k5_semopt` with `semToSqlFix` (the cache is consulted before a sub-query is converted). -/
+/-! Driver suite of C04: `c04_stub`, hand-built NearSQL trees through the generalised WITH form of Sql/WithFormG.lean. -/
 namespace DAVerif.Drv.C04Drv
 open Lean DAVerif DAVerif.Drv DAVerif.Sql DAVerif.Drv.SqlDrv
 
-def handleSqlOptFix (c : Json) : Except String Json := do
-  let ops ← opsOfJson (← obj c "ops")
-  let env ← envOfJson (← obj c "tables")
-  let dialectPg := match optKey c "dialect" with | some (.str "postgres") => true | _ => false
-  match (OpsDrv.supported ops).orElse (fun _ =>
-      if dialectPg && opsMention ["is_nan", "is_inf", "is_bad"] ops then some "dialect-specific op" else none) with
-  | some why => return Json.mkObj [("unsupported", .str why)]
-  | none =>
-    match toNearSql (cfgOfJson c) ops with
-    | .error e => return errToJson e
-    | .ok n =>
-      match semToSqlFix ThetaSql.concrete (engineOfJson c) env (boolOpt c "use_with" true)
-          (boolOpt c "cte_elim" false && dialectPg) n with
-      | .ok t => return Json.mkObj [("ok", tableToJson t)]
-      | .error e => return errToJson e
-
-/-! `c04_stub`: hand-built trees over the table `d(x)` with arbitrary `ops_key`s through `toWithFormG` (code as it is)
-or `toWithFormFix` (repaired stub); key function = `cacheKey` (`f"{ops_key}_{list(columns)}"`).
+/-! `c04_stub`: hand-built trees over the table `d(x)` with arbitrary `ops_key`s through `toWithFormG` (code as it is; with
+`"old": true` through `toWithFormOld`, the stub before fix N28); key function = `cacheKey` (`f"{ops_key}_{list(columns)}"`).
 tree: `["t"]` | `["s", name, key, sub]` | `["u", name, key, l, r]` -/
 
 partial def treeOfJson : Json → Except String Near
@@ -48,11 +31,11 @@ def sortStrs (l : List String) : List String := l.mergeSort (fun a b => a ≤ b)
 def handleStub (c : Json) : Except String Json := do
   let near ← treeOfJson (← obj c "tree")
   let cache : Option Cache := if boolOpt c "cache" true then some [] else none
-  let r := if boolOpt c "fixed" false then toWithFormFix cacheKey cache near else toWithFormG cacheKey cache near
+  let r := if boolOpt c "old" false then toWithFormOld cacheKey cache near else toWithFormG cacheKey cache near
   return Json.mkObj [
     ("steps", Json.arr (r.2.1.map (fun st => Json.arr #[.str st.name, strListOut (sortStrs (cteRefs st.near))])).toArray),
     ("last", strListOut (sortStrs (cteRefs r.1)))]
 
-def handlers : List (String × Handler) := [("c04_semopt_fix", handleSqlOptFix), ("c04_stub", handleStub)]
+def handlers : List (String × Handler) := [("c04_stub", handleStub)]
 
 end DAVerif.Drv.C04Drv
